@@ -18,6 +18,7 @@ type Gen struct {
 	focus   string // when set, most key choices of the current history go to this key
 	bfType  string // BITFIELD: type and offsets the current history concentrates on
 	bfOffs  []string
+	refIdx  int // refusedMacro walks its templates in turn
 }
 
 func newGen(seed int64) *Gen {
@@ -239,7 +240,13 @@ func init() {
 	})
 	reg("list", "llen", func(g *Gen) []string { return []string{g.kw("llen"), g.key()} })
 	reg("list", "lindex", func(g *Gen) []string { return []string{g.kw("lindex"), g.key(), g.num()} })
-	reg("list", "lrange", func(g *Gen) []string { return []string{g.kw("lrange"), g.key(), g.num(), g.num()} })
+	reg("list", "lrange", func(g *Gen) []string {
+		if g.chance(0.25) {
+			// a stop before the head of the list (empty range), a start behind the tail, both far outside
+			return []string{g.kw("lrange"), g.key(), g.pick("0", "-3", "-100", "1", "-9223372036854775808"), g.pick("-4", "-5", "-8", "-100", "-9223372036854775808", "100")}
+		}
+		return []string{g.kw("lrange"), g.key(), g.num(), g.num()}
+	})
 	reg("list", "lset", func(g *Gen) []string { return []string{g.kw("lset"), g.key(), g.num(), g.elem()} })
 	reg("list", "linsert", func(g *Gen) []string {
 		return []string{g.kw("linsert"), g.key(), g.kw(g.pick("BEFORE", "AFTER")), g.elem(), g.pick("x", "y", "a")}
@@ -394,12 +401,25 @@ func init() {
 		for i := 0; i <= g.r.Intn(3); i++ {
 			a = append(a, g.key())
 		}
+		if g.chance(0.3) {
+			// an operand that does not exist, at any position
+			a[1+g.r.Intn(len(a)-1)] = "nokey_set"
+			if g.chance(0.5) {
+				a = append(a, g.key())
+			}
+		}
 		return a
 	})
 	reg("set", "setopstore", func(g *Gen) []string {
 		a := []string{g.kw(g.pick("sinterstore", "sunionstore", "sdiffstore")), g.key()}
 		for i := 0; i <= g.r.Intn(3); i++ {
 			a = append(a, g.key())
+		}
+		if g.chance(0.3) {
+			a[2+g.r.Intn(len(a)-2)] = "nokey_set"
+			if g.chance(0.5) {
+				a = append(a, g.key())
+			}
 		}
 		return a
 	})
@@ -773,7 +793,7 @@ func (g *Gen) floatMacro(c int, hash bool) []Op {
 		for j := 0; j < 1+g.r.Intn(5); j++ {
 			f := g.pick("f", "f", "f", "g", "new")
 			if g.chance(0.15) {
-				ops = append(ops, mkOp(c, g.kw("hincrbyfloat"), g.pick(k, k, g.key(), "nokey_h"), f, g.pick("abc", "", "1.2.3", "--1", "inf", "-inf", "nan", "+Infinity", "infinity")),
+				ops = append(ops, mkOp(c, g.kw("hincrbyfloat"), g.pick(k, k, g.key(), "nokey_h"), f, g.pick("abc", "", "1.2.3", "--1", "inf", "-inf", "nan", "+Infinity", "infinity", "0x1p-2", "-0X.8p1", "0x1_0p0", "0x10", "1_0", "0b1", ".", "+", "1e", "e5")),
 					mkOp(c, "EXISTS", "nokey_h"), mkOp(c, "TYPE", "nokey_h"))
 			} else {
 				ops = append(ops, mkOp(c, g.kw("hincrbyfloat"), k, f, g.smallDec()))
@@ -792,13 +812,82 @@ func (g *Gen) floatMacro(c int, hash bool) []Op {
 	}
 	for j := 0; j < 1+g.r.Intn(5); j++ {
 		if g.chance(0.15) {
-			ops = append(ops, mkOp(c, g.kw("incrbyfloat"), g.pick(k, k, "nokey_f"), g.pick("abc", "", "1.2.3", "--1", "1 ", "inf", "-inf", "nan", "infinity")),
+			ops = append(ops, mkOp(c, g.kw("incrbyfloat"), g.pick(k, k, "nokey_f"), g.pick("abc", "", "1.2.3", "--1", "1 ", "inf", "-inf", "nan", "infinity", "0x1p-2", "-0X.8p1", "0x1_0p0", "0x10", "1_0", "0b1", ".", "+", "1e", "e5")),
 				mkOp(c, "EXISTS", "nokey_f"))
 		} else {
 			ops = append(ops, mkOp(c, g.kw("incrbyfloat"), k, g.smallDec()))
 		}
 	}
 	ops = append(ops, mkOp(c, "GET", k), mkOp(c, "TTL", k))
+	return ops
+}
+
+// ---- SET with two option groups (condition, GET, expiry) in either order, on a key of ANY type: the
+// interplay of the groups (NX GET on a list is WRONGTYPE, XX GET on a missing key writes nothing ...) ----
+func (g *Gen) setMacro(c int) []Op {
+	k := g.pick(g.key(), g.key(), "nokey_s")
+	var ops []Op
+	for j := 0; j < 2+g.r.Intn(3); j++ {
+		groups := [][]string{{g.kw(g.pick("NX", "XX"))}, {g.kw("GET")}, {g.kw("EX"), g.farTTL(1000)}}
+		if g.chance(0.4) {
+			groups[2] = []string{g.kw("PX"), g.farTTL(1)}
+		}
+		if g.chance(0.3) {
+			groups[2] = []string{g.kw("KEEPTTL")}
+		}
+		drop := g.r.Intn(3)
+		groups = append(groups[:drop], groups[drop+1:]...)
+		if g.chance(0.5) {
+			groups[0], groups[1] = groups[1], groups[0]
+		}
+		a := []string{g.kw("set"), k, g.val()}
+		a = append(a, groups[0]...)
+		a = append(a, groups[1]...)
+		ops = append(ops, mkOp(c, a...), mkOp(c, "TYPE", k), mkOp(c, "TTL", k))
+		if g.chance(0.3) {
+			ops = append(ops, mkOp(c, "DEL", k))
+		}
+	}
+	ops = append(ops, mkOp(c, "DEL", "nokey_s"))
+	return ops
+}
+
+// ---- commands that must be refused (or have nothing to do), aimed at a key that does not exist and at keys
+// of every type: afterwards the missing key must still be missing (no empty aggregate, no half-made value) ----
+func (g *Gen) refusedMacro(c int) []Op {
+	var ops []Op
+	badf := func() string {
+		if g.chance(0.5) {
+			// accepted by strconv.ParseFloat (the argument parser), refused by the decimal arithmetic
+			return g.pick("0x1p-2", "-0X.8p1", "0x1_0p0", "0x1P+3", "+0x.1p4")
+		}
+		return g.pick("abc", "", "1.2.3", "--1", "inf", "nan", "0x10", "1_0", ".", "1e", " 1")
+	}
+	badi := func() string {
+		return g.pick("abc", "", "1.5", "--1", "9223372036854775808", "-9223372036854775809", "0x10", "1_0", " 1", "1 ", "+")
+	}
+	for j := 0; j < 3+g.r.Intn(4); j++ {
+		k := g.pick("nokey_r", "nokey_r", g.key())
+		t := [][]string{
+			{"HINCRBYFLOAT", k, "f", badf()}, {"HINCRBY", k, "f", badi()}, {"INCRBYFLOAT", k, badf()}, {"INCRBY", k, badi()}, {"DECRBY", k, badi()},
+			{"LINSERT", k, "BEFORE", "nopivot", "x"}, {"LINSERT", k, "MIDDLE", "a", "x"}, {"LSET", k, "0", "x"}, {"LSET", k, badi(), "x"},
+			{"SETRANGE", k, "-1", "x"}, {"SETRANGE", k, badi(), "x"}, {"SETRANGE", k, "536870912", "x"}, {"SETBIT", k, "-1", "1"}, {"SETBIT", k, "0", "2"}, {"SETBIT", k, badi(), "1"},
+			{"BITFIELD", k, "SET", "u99", "0", "1"}, {"BITFIELD", k, "SET", "u8", "0", badi()}, {"BITFIELD", k, "INCRBY", "i65", "0", "1"}, {"BITFIELD", k, "OVERFLOW", "NOPE", "SET", "u8", "0", "1"},
+			{"LPUSHX", k, "x"}, {"RPUSHX", k, "x"}, {"RPOPLPUSH", k, "nokey_r2"}, {"LMOVE", k, "nokey_r2", "LEFT", "RIGHT"}, {"LMOVE", k, "nokey_r2", "UP", "RIGHT"}, {"SMOVE", k, "nokey_r2", "a"},
+			{"RENAME", k, "nokey_r2"}, {"RENAMENX", k, "nokey_r2"}, {"COPY", k, "nokey_r2"}, {"LTRIM", k, "0", badi()}, {"LREM", k, badi(), "a"}, {"LPOP", k, "-1"}, {"LPOP", k, badi()},
+			{"EXPIRE", k, badi()}, {"EXPIRE", k, "100", "NX", "XX"}, {"PEXPIRE", k, "100", "GT", "LT"}, {"GETEX", k, "EX", badi()}, {"GETEX", k, "EX", "0"}, {"GETEX", k, "PX", "-5"},
+			{"SET", k, "v", "EX", badi()}, {"SET", k, "v", "EX", "0"}, {"SET", k, "v", "PX", "-1"}, {"SET", k, "v", "NX", "XX"}, {"SET", k, "v", "EX", "10", "PX", "10"}, {"SETEX", k, "0", "v"}, {"SETEX", k, badi(), "v"}, {"PSETEX", k, "-1", "v"},
+			{"HSET", k, "f"}, {"HSET", k, "f", "v", "g"}, {"HMSET", k, "f"}, {"MSET", k}, {"MSET", k, "v", "nokey_r2"}, {"MSETNX", k, "v", g.key(), "w", "nokey_r2"},
+			{"SORT", k, "STORE", "nokey_r2"}, {"SORT", k, "LIMIT", "0"}, {"SORT", k, "BY"}, {"SINTERSTORE", "nokey_r2", k, "nokey_r"}, {"SDIFFSTORE", "nokey_r2", "nokey_r", k}, {"SUNIONSTORE", "nokey_r2", "nokey_r"},
+			{"BITOP", "AND", "nokey_r2", "nokey_r"}, {"BITOP", "NOT", "nokey_r2", "nokey_r", k}, {"BITOP", "NAND", "nokey_r2", k}, {"LMPOP", "2", k, "nokey_r", "LEFT", "COUNT", "0"}, {"LMPOP", "0", "LEFT"},
+			{"SINTERCARD", "2", k}, {"SINTERCARD", "1", k, "LIMIT", "-1"}, {"HRANDFIELD", k, badi()}, {"SRANDMEMBER", k, badi()}, {"SPOP", k, "-1"}, {"SPOP", k, badi()},
+			{"LPOS", k, "a", "RANK", "0"}, {"LPOS", k, "a", "COUNT", "-1"}, {"LPOS", k, "a", "MAXLEN", "-1"}, {"GETRANGE", k, badi(), "1"}, {"LRANGE", k, "0", badi()}, {"LINDEX", k, badi()},
+			{"APPEND", k}, {"GETDEL", k, "x"}, {"OBJECT", "ENCODING", k}, {"MOVE", k, "99"}, {"MOVE", k, badi()}, {"SWAPDB", "0", badi()}, {"SELECT", badi()},
+		}
+		g.refIdx++
+		ops = append(ops, mkOp(c, t[g.refIdx%len(t)]...), mkOp(c, "EXISTS", "nokey_r", "nokey_r2"), mkOp(c, "TYPE", k))
+	}
+	ops = append(ops, mkOp(c, "DBSIZE"), mkOp(c, "DEL", "nokey_r", "nokey_r2"))
 	return ops
 }
 
@@ -864,6 +953,46 @@ func (g *Gen) bitposMacro(c int) []Op {
 			ops = append(ops, mkOp(c, g.kw("bitpos"), k, bit, g.pick("0", "3", "8", "-9", "-1"), g.pick("-1", "7", "12", "23", "99"), "BIT"))
 		default:
 			ops = append(ops, mkOp(c, g.kw("bitcount"), k, g.pick("0", "1", "-1", "-2"), g.pick("-1", "0", "5", "11"), g.pick("BIT", "BYTE")))
+		}
+	}
+	ops = append(ops, mkOp(c, "GET", k))
+	return ops
+}
+
+// ---- BITCOUNT / BITPOS over bit ranges of a value with distinct bytes: ranges that start and end inside
+// bytes, cover several whole bytes between, start beyond the first byte, given from either end ----
+func (g *Gen) bitrangeMacro(c int) []Op {
+	k := g.key()
+	n := 4 + g.r.Intn(5)
+	v := make([]byte, n)
+	for i := range v {
+		v[i] = []byte{0xff, 0x00, 0x01, 0x80, 0x3c, 0xa5, 0x7e, 0x10}[g.r.Intn(8)]
+	}
+	ops := []Op{mkOp(c, "SET", k, string(v))}
+	bits := n * 8
+	for j := 0; j < 5+g.r.Intn(6); j++ {
+		s := g.r.Intn(bits)
+		e := s + g.r.Intn(bits-s)
+		if g.chance(0.6) {
+			// at least three bytes wide, not starting in the first byte
+			s = 8 + g.r.Intn(8)
+			e = s + 16 + g.r.Intn(bits-s-16+1)
+			if e >= bits {
+				e = bits - 1
+			}
+		}
+		ss, es := fmt.Sprint(s), fmt.Sprint(e)
+		if g.chance(0.3) {
+			ss = fmt.Sprint(s - bits)
+		}
+		if g.chance(0.3) {
+			es = fmt.Sprint(e - bits)
+		}
+		switch g.r.Intn(3) {
+		case 0, 1:
+			ops = append(ops, mkOp(c, g.kw("bitcount"), k, ss, es, g.kw("BIT")))
+		default:
+			ops = append(ops, mkOp(c, g.kw("bitpos"), k, g.pick("0", "1"), ss, es, g.kw("BIT")))
 		}
 	}
 	ops = append(ops, mkOp(c, "GET", k))
